@@ -831,7 +831,16 @@ func (tr *Tr) builtin(fr *frame, b *ssa.Builtin, cc *ssa.CallCommon, args []Val,
 			return def(rt, ite(app(op, a.T, bb.T), bb.T, a.T))
 		}
 		return def(rt, ite(app(op, a.T, bb.T), a.T, bb.T))
-	case "close", "clear":
+	case "close":
+		// closing a nil or an already closed channel panics: ghost state CHCLOSED (per channel reference);
+		// it is written only here, so a channel received from the environment is not known to be open
+		// unless a contract says so
+		C.regHeap("CHCLOSED", "(Array Int Bool)")
+		ch := args[0]
+		tr.safety(fr, "close", and(not(eq(ch.T, "0")), not(sel(C.hget(fr.heap, "CHCLOSED"), ch.T))), pos, "close of a nil or already closed channel")
+		fr.heap.m["CHCLOSED"] = tr.define(C.heapSort["CHCLOSED"], sto(C.hget(fr.heap, "CHCLOSED"), ch.T, "true"), "CHCLOSED")
+		return Val{Ty: rt}
+	case "clear":
 		tr.vc.Abstract["builtin-"+b.Name()]++
 		return Val{Ty: rt}
 	case "ssa:wrapnilchk":
